@@ -1,31 +1,31 @@
 /* models.c -- contract models for harness-mode targets (plain cbmc has no --replace-call-with-contract).
  *
- * -DM_NAMEUNPACK: every call of rfc1035NameUnpack (from rfc1035RRUnpack, rfc1035QueryUnpack and the recursive call inside
- *   rfc1035NameUnpack itself, whose real definition is then named rfc1035NameUnpack_real) goes to the model below, which IS
- *   the contract NAMEUNPACK_CONTRACT of contract.c, clause by clause, in the replace-call-with-contract reading:
- *   requires -> asserted at the call, assigns -> havocked, ensures -> assumed.  The contract itself is proved on the real
- *   function by the targets `nameunpack` (--dfcc --enforce-contract-rec: everything but the NUL clause) and
- *   `nameunpack_term` (the NUL clause, by induction over 65 - rdepth with this model as the induction hypothesis).
- * -DM_RRDESTROY: rfc1035RRDestroy is the real loop restricted to the first KMAX entries; all later entries are asserted to
- *   hold no rdata (ghost index).  Used only by `message_safe`, where ancount (0..65535) is arbitrary but at most
- *   N/11 records can have been unpacked from N bytes.  The real rfc1035RRDestroy runs in `message_small`/`rr_destroy`. */
+ * With -DM_<X> the real definition of X is compiled under the name X_real (extraction rule + cv_pre.h) and every call of X
+ * in the real file goes to the model below = X's contract in the replace-call reading: requires ASSERTED at the call,
+ * frame havocked, ensures ASSUMED.  The assumed predicate is the very function (specs.h) that X's own target asserts on
+ * the real X, so a model cannot promise more than was proved:
+ *    rfc1035NameUnpack   proved by  nameunpack (--dfcc, same clauses written out) and nameunpack_term
+ *    rfc1035QueryUnpack  proved by  queryunpack        rfc1035RRUnpack  proved by  rrunpack
+ * Ghost-index clauses are assumed for ONE arbitrary index only (weaker than proved: sound).
+ * -DM_NUL adds the NUL clause to the NameUnpack model (used only as induction hypothesis by nameunpack_term).
+ * -DM_RRDESTROY: rfc1035RRDestroy is the real loop restricted to the first KMAX entries; all later entries are ASSERTED to
+ *   hold no rdata (ghost index).  Used only by message_safe, where ancount (0..65535) is arbitrary but fewer than
+ *   KMAX = N/11+1 records fit into N octets.  The real rfc1035RRDestroy is checked by target rr_destroy. */
 #include <stddef.h>
 #include <stdlib.h>
 #include <sys/types.h>
 #include <netinet/in.h>
 #include "dns/rfc1035.h"
+#include "specs.h"
 
-#ifndef N
-#define N 64
-#endif
-#define NS RFC1035_MAXHOSTNAMESZ
-
-#ifdef M_NAMEUNPACK
 unsigned int cv_nondet_uint(void);
 unsigned short cv_nondet_ushort(void);
 int cv_nondet_int(void);
 size_t cv_nondet_size(void);
+void free_const(const void *);
+void *xmalloc(size_t);
 
+#ifdef M_NAMEUNPACK
 int rfc1035NameUnpack(const char *buf, size_t sz, unsigned int *off, unsigned short *rdlength, char *name, size_t ns, int rdepth)
 {
     /* requires: checked at every call site */
@@ -42,34 +42,70 @@ int rfc1035NameUnpack(const char *buf, size_t sz, unsigned int *off, unsigned sh
                                            !__CPROVER_same_object(rdlength, off))),
                      "NameUnpack requires: buf, off, rdlength, name are separate objects");
     /* assigns: *off, *rdlength, name[0,ns) */
-    unsigned int old_off = *off;
-    unsigned short old_rdl = rdlength ? *rdlength : 0;
+    unsigned int off0 = *off;
+    unsigned short rdl0 = rdlength ? *rdlength : 0;
     *off = cv_nondet_uint();
     if (rdlength)
         *rdlength = cv_nondet_ushort();
     __CPROVER_havoc_slice(name, ns);
     int r = cv_nondet_int();
     /* ensures */
-    __CPROVER_assume(r == 0 || r == 1);
+    __CPROVER_assume(spec_name_post(sz, off0, *off, r, rdlength != NULL, rdl0, rdlength ? *rdlength : 0, ns));
+#ifdef M_NUL
     if (r == 0) {
         size_t k = cv_nondet_size();     /* witness of "some byte of name[0,ns) is NUL" */
-        __CPROVER_assume(*off <= sz && *off > old_off && k < ns && name[k] == 0);
+        __CPROVER_assume(k < ns && name[k] == 0);
     }
-    if (rdlength)
-        __CPROVER_assume(*rdlength >= old_rdl && (size_t)(*rdlength - old_rdl) <= ns);
+#endif
+    return r;
+}
+#endif
+
+#ifdef M_QUERYUNPACK
+int rfc1035QueryUnpack(const char *buf, size_t sz, unsigned int *off, rfc1035_query *query)
+{
+    __CPROVER_assert(1 <= sz && sz <= N && __CPROVER_r_ok(buf, sz), "QueryUnpack requires: 1 <= sz <= N and buf[0,sz) readable");
+    __CPROVER_assert(__CPROVER_rw_ok(off, sizeof(unsigned int)), "QueryUnpack requires: off valid");
+    __CPROVER_assert(__CPROVER_w_ok(query, sizeof(*query)), "QueryUnpack requires: query writable");
+    __CPROVER_assert(!__CPROVER_same_object(query, buf) && !__CPROVER_same_object(query, off) && !__CPROVER_same_object(off, buf),
+                     "QueryUnpack requires: buf, off, query are separate objects");
+    unsigned int off0 = *off;
+    *off = cv_nondet_uint();
+    __CPROVER_havoc_slice(query, sizeof(*query));
+    int r = cv_nondet_int();
+    __CPROVER_assume(spec_query_post(buf, sz, off0, *off, r, query, cv_nondet_size()));
+    return r;
+}
+#endif
+
+#ifdef M_RRUNPACK
+int rfc1035RRUnpack(const char *buf, size_t sz, unsigned int *off, rfc1035_rr *RR)
+{
+    __CPROVER_assert(1 <= sz && sz <= N && __CPROVER_r_ok(buf, sz), "RRUnpack requires: 1 <= sz <= N and buf[0,sz) readable");
+    __CPROVER_assert(__CPROVER_rw_ok(off, sizeof(unsigned int)), "RRUnpack requires: off valid");
+    __CPROVER_assert(__CPROVER_w_ok(RR, sizeof(*RR)), "RRUnpack requires: RR writable");
+    __CPROVER_assert(!__CPROVER_same_object(RR, buf) && !__CPROVER_same_object(RR, off) && !__CPROVER_same_object(off, buf),
+                     "RRUnpack requires: buf, off, RR are separate objects");
+    unsigned int off0 = *off;
+    *off = cv_nondet_uint();
+    __CPROVER_havoc_slice(RR, sizeof(*RR));
+    int r = cv_nondet_int();
+    if (r == 0) {
+        size_t n = cv_nondet_size();
+        __CPROVER_assume(n <= 65535);
+        RR->rdata = xmalloc(n);          /* a fresh heap block; contents arbitrary */
+    }
+    __CPROVER_assume(spec_rr_post(buf, sz, off0, *off, r, RR, cv_nondet_size()));
     return r;
 }
 #endif
 
 #ifdef M_RRDESTROY
-#define KMAX (N / 11 + 1)     /* an RR occupies at least 11 octets (root name + 10 fixed), so fewer than KMAX fit in N */
-int cv_nondet_int2(void);
-void free_const(const void *);
 void rfc1035RRDestroy(rfc1035_rr **rr, int n)
 {
     if (*rr == NULL)
         return;
-    int gi = cv_nondet_int2();
+    int gi = cv_nondet_int();
     __CPROVER_assert(!(gi >= KMAX && gi < n) || (*rr)[gi].rdata == NULL,
                      "RRDestroy model: no record beyond the first N/11+1 holds rdata (so the real loop frees nothing there)");
     int k = n < KMAX ? n : KMAX;
